@@ -5,7 +5,7 @@ M = "xhair.obl.c17"
 
 def x_obligations(tier):
     o = []
-    T = 170 if tier == "quick" else 1200
+    T = 170 if tier == "quick" else 600
     sids = [("h/a/x/v1/m", "h/a/x/v2/m"), ("h/a/x/v1", "h/a/x/v2")] if tier == "quick" else [("h/a/x/v1/m", "h/a/x/v2/m"), ("h/a/x/v1", "h/a/x/v2"), ("h/a/x/v1/m", "h/a/x/v1/g"), ("h/s/q1/v1/c", "h/s/q1/v1/o/c")]
     variants = [(0, 1, 0, 0), (0, 0, 1, 1), (1, 3, 1, 2)] if tier == "quick" else [(0, 1, 0, 0), (0, 0, 1, 1), (1, 3, 1, 2), (0, 2, 0, 3), (1, 1, 0, 1)]
     for (sid, other) in sids:
